@@ -103,6 +103,58 @@ def work(item):
     return res
 
 
+def work_seq(item):
+    """Two-part instruction: part 0 followed by part 1 on one packet state; the Pn_NEW that part 1
+    reads is the Pn part 0 wrote."""
+    name, parts, texts = item
+    env = _JOB["env"]
+    both = BehSpec(name, -1, parts[0] + " " + parts[1])
+    ops = drive.scan_operands(both.text)
+    res = {"id": name + "#0+1"}
+    try:
+        cps = [prog.Compiled(BehSpec(name, i, parts[i]), texts[i], env, ops=ops) for i in (0, 1)]
+    except Exception as e:
+        res.update(status="unreadable", detail=repr(e)[:300])
+        return res
+    slots, states = prog.states_for(both, ops, _JOB["budget"], EXTRA)
+    n_cmp = 0
+    bad = []
+    for vec in states:
+        try:
+            w, locs = prog.build_c_world(both, ops, slots, vec)
+            it = ceval.Interp(env.c_routines, frozenset())
+            it.run(cps[0].cast, w, {})
+            for sp, o in ops.items():
+                if o.kind == "explicit" and o.new:
+                    src = w.cells.get(sp[: -len("_NEW")])
+                    if src is not None and src.assigned:
+                        w.cells[sp].v = src.v
+            it.run(cps[1].cast, w, {})
+            cobs = prog.c_observation(both, ops, w, {}, slots, vec)
+        except (ceval.CUndefined, ceval.CUnsupported):
+            continue
+        try:
+            m = prog.build_il_machine(both, ops, slots, vec)
+            for cp in cps:
+                if cp.prog is None:
+                    raise cp.il_error
+                cp.prog.run(m)
+            d = prog.diff_obs(cobs, m.observation(), dict(m.cur))
+        except ilvm.HelperUB:
+            continue
+        except ilvm.ILError as e:
+            d = ["IL error %s" % e]
+        n_cmp += 1
+        if d:
+            bad.append((vec, "; ".join(d[:3])))
+    res.update(n_compared=n_cmp, n_states=len(states))
+    if bad:
+        res.update(status="disagree", n_bad=len(bad), first_bad={"state": dict(zip([s[0] for s in slots], bad[0][0])), "kind": "mismatch", "detail": bad[0][1][:300]})
+    else:
+        res["status"] = "agree"
+    return res
+
+
 def acceptance(res):
     out = {}
     for name, v in res.items():
@@ -196,6 +248,18 @@ def run(ctx):
             ctx.report({"part": r["id"], "behaviour": it[2][:1500], "first_bad": r["first_bad"], "n_bad_states": r["n_bad"], "explained_by": r.get("explained_by")}, fids, what="%s: %s" % (r["id"], r["first_bad"]["detail"][:200]))
     for it, r in list(zip(items, out))[:2] + list(zip(items, out))[-1:]:
         ctx.sample({"part": r["id"], "behaviour": it[2][:200], "status": r["status"], "states": r.get("n_states")})
+    # ---- two-part instructions as a sequence on one packet state
+    seq_items = [(name, beh[name], res[name][1]["rzil"]) for name in sorted(res) if res[name][0] == "ok" and len(beh[name]) == 2]
+    sout = core.pmap(work_seq, seq_items, seed=ctx.seed)
+    for it, r in zip(seq_items, sout):
+        cov["two_part_sequences"] += 1
+        cov["states_compared"] += r.get("n_compared", 0)
+        if r["status"] == "unreadable":
+            ctx.report({"part": r["id"], "detail": r["detail"]}, None, what="%s: unreadable: %s" % (r["id"], r["detail"]))
+        elif r["status"] == "disagree":
+            ctx.report({"part": r["id"], "behaviour": " ".join(it[1])[:1500], "first_bad": r["first_bad"], "n_bad_states": r["n_bad"]}, None, what="%s (part 0 then part 1): %s" % (r["id"], r["first_bad"]["detail"][:200]))
+        else:
+            cov["two_part_sequences_agree"] += 1
     # ---- sub-routines as callees
     sspecs = sub_routine_specs(ctx.tier)
     sres = vcheck.run_space(ctx, sspecs, "c01-subs", 256 if ctx.tier == "quick" else 4096, compiler=comp, env=env, extra={"extra_slots": EXTRA})
@@ -227,7 +291,7 @@ def run(ctx):
             "operand letters are bound to distinct registers; explicit pairs and their halves are treated as distinct registers",
             "float operations are uninterpreted functions shared by both sides (IEEE semantics outside the claim)",
             "HVX: nothing is accepted, nothing claimed",
-            "two-part instructions: each part is checked on its own (the .new values produced by part 1 are inputs of part 2)",
+            "two-part instructions: each part is checked on its own and as the sequence part 0; part 1 on one packet state",
         ],
     )
 
